@@ -91,7 +91,9 @@ MORE = {
  "C16": dict(text="; the sample rate does not change while the drain is iterated; a value pushed while a drain is held is yielded by the next drain, once; E3 schedules (1-2 pushers || consume): only this cycle's values, none twice, within capacity none lost outside the two recorded mechanisms K9 / K10",
              note="uniformity of rand's random_range and the induction are trusted; capacity <= 2"),
  "C18": dict(text="; the allowlist as the real pipeline (new_http_listener builds the exporter, then check_tcp_allowed) over 1-3 IPv4 networks of any address / prefix length (nested, overlapping, unsorted, host bits) and any loopback peer; the accept loop (serve_tcp's state machine -> spawned task -> handler response) over 2 accepted / failed connections with failing peer_addr(): one answer per accepted connection following the allowlist, the loop never ends",
-             note="IPv6 is outside the encoding (ipnet modelled on IPv4 values); hyper's parsing, connections aborted mid-render and concurrency are NOT covered"),
+             note="the membership test is encoded on IPv4 values; IPv6 enters only in the syntax table (a plain address of either family is stored as exactly that host: /32 or /128); hyper's parsing, connections aborted mid-render and concurrency are NOT covered"),
+ "C17": dict(text="; span trees end to end: MetricsLayer::on_layer / on_new_span / on_record and TracingContext::register_* -> enhance_key -> with_labels executed over a modelled span registry for 9 (thorough: 13) trees of <= 3 spans (contextual / explicit parent / explicit root, field-less spans, records after a child exists, exited spans) with symbolic, possibly coinciding names, values and filter verdicts: the key reaching the inner recorder carries exactly the metric's labels plus the admitted fields of the current span and those its ancestors had when each descendant was created; the solver's tree is replayed through the real tracing registry, and each scenario's witness inputs are validated natively",
+             note="tracing-subscriber's registry and dispatcher are modelled (span ids, parent links as the registry sets them, one Labels slot per span, the current span); field visiting (value formatting per type), other threads' spans and spans closed while referenced are NOT covered; <= 1 field per span call, <= 2 metric labels"),
  "C19": dict(text="; a value recorded on another thread while a snapshot is in progress (interference at every bucket-operation boundary) appears in exactly one snapshot",
              note="fixed history shapes of <= 7 calls; abstract key identities; registry, IndexMap/HashMap/Mutex by their contracts; the bucket's operations are atomic steps (C05)"),
 }
